@@ -193,7 +193,11 @@ func ConvertWithContext(v reflect.Value, t reflect.Type, context *Context) (refl
 			return reflect.Value{}, fmt.Errorf("expected a function, found %s", v.Type())
 		}
 	} else if t.Implements(untypedCollectionInterface) {
-		if v.Type().AssignableTo(t) {
+		if v.Kind() == reflect.Interface && v.IsNil() {
+			// For example, the result of find-collection for an ID that
+			// doesn't exist.
+			return reflect.Value{}, fmt.Errorf("expected a collection, found nil")
+		} else if v.Type().AssignableTo(t) {
 			return v, nil
 		} else if adaptor, ok := context.Adaptors.Collections[t]; ok {
 			if vc, ok := v.Interface().(b6.UntypedCollection); ok {
